@@ -57,10 +57,40 @@ def make_case(tier, seed, index):
     ps = gen.gen_progspec(rng, spec) if rng.random() < 0.5 else None
     n = max(2, int(round((spec["settings"]["end"] - spec["settings"]["start"]) / spec["settings"]["dt"])))
     k1 = int(rng.integers(1, n)) if rng.random() < 0.85 else 0  # (the first time point is a grid year like any other)
+    if index % 16 == 11 and float(spec["settings"]["start"]).is_integer():
+        # "time since start" models: the calendar is shifted so that the year 0 is a simulation time, and the state is saved there
+        # (0 is a year like any other)
+        delta = float(spec["settings"]["start"]) + float(int(rng.integers(0, 2)))  # year 0 is the first or the second whole year
+        shift_years(spec, delta)
+        ps = None
+        k1 = int(round((0.0 - spec["settings"]["start"]) / spec["settings"]["dt"]))
+        if not (0 <= k1 < n) or abs(spec["settings"]["start"] + k1 * spec["settings"]["dt"]) > 0:
+            k1 = 0
     chain = [k1]
     if rng.random() < 0.4 and n - k1 >= 2:
         chain.append(int(rng.integers(1, n - k1)) if rng.random() < 0.8 else 0)
     return {"kind": "restart", "spec": spec, "progspec": ps, "chain": chain, "spreadsheet": bool(rng.random() < 0.4 or single)}
+
+
+def shift_years(spec, delta):
+    """Moves the whole calendar of a generated model by -delta years (data years, settings)."""
+
+    def sh(v):
+        if isinstance(v, dict) and "t" in v:
+            v["t"] = [float(x) - delta for x in v["t"]]
+
+    spec["years"] = [float(y) - delta for y in spec["years"]]
+    for popvals in spec["values"].values():
+        for v in popvals.values():
+            sh(v)
+    for t in spec.get("transfers", []):
+        for e in t["entries"]:
+            sh(e[3])
+    for it in spec.get("interactions", []):
+        for e in it.get("entries", []):
+            sh(e[2])
+    spec["settings"]["start"] = float(spec["settings"]["start"]) - delta
+    spec["settings"]["end"] = float(spec["settings"]["end"]) - delta
 
 
 def continuous(spec):
@@ -168,6 +198,8 @@ def run_case(case):
         R.count("restarts_compared")
         if k == 0:
             R.count("restarts_at_the_first_time_point")
+        if Y == 0.0:
+            R.count("restarts_at_year_zero")
         if same_grid:
             R.count("restarts_bit_exact_grid")
         judge_all = same_grid or cont
